@@ -1,6 +1,7 @@
 //! qh: correspondence / oracle harness driving the real qmc crate.
 mod c08;
 mod c10;
+mod c15;
 mod c16;
 mod c17;
 mod coqfmt;
@@ -89,6 +90,7 @@ fn main() {
         "steps" => steps::run(&args),
         "c17" => c17::run(&args),
         "c10" => c10::run(&args),
+        "c15" => c15::run(&args),
         other => {
             eprintln!("unknown command {}", other);
             std::process::exit(2);
